@@ -334,7 +334,12 @@ impl NodeRecordStore {
             timestamp: self.timestamp,
         };
 
+        #[cfg(feature = "verif-hooks")]
+        crate::verif::announce(crate::verif::GateKind::MetricsFlush, &[]);
         spawn(async move {
+            #[cfg(feature = "verif-hooks")]
+            let _verif_guard =
+                crate::verif::gate(crate::verif::GateKind::MetricsFlush, vec![]).await;
             if let Ok(mut file) = fs::File::create(file_path) {
                 let mut serialiser = rmp_serde::encode::Serializer::new(&mut file);
                 let _ = historic_quoting_metrics.serialize(&mut serialiser);
@@ -695,7 +700,12 @@ impl NodeRecordStore {
         let cloned_cmd_sender = self.local_swarm_cmd_sender.clone();
 
         let record_key2 = record_key.clone();
+        #[cfg(feature = "verif-hooks")]
+        crate::verif::announce(crate::verif::GateKind::DiskWrite, r.key.as_ref());
         spawn(async move {
+            #[cfg(feature = "verif-hooks")]
+            let _verif_guard =
+                crate::verif::gate(crate::verif::GateKind::DiskWrite, r.key.to_vec()).await;
             let key = r.key.clone();
             if let Some(bytes) = Self::prepare_record_bytes(r, encryption_details) {
                 let cmd = match fs::write(&file_path, bytes) {
@@ -786,6 +796,83 @@ impl NodeRecordStore {
     /// Setup the distance range.
     pub(crate) fn set_responsible_distance_range(&mut self, responsible_distance: U256) {
         self.responsible_distance_range = Some(responsible_distance);
+    }
+}
+
+/// Verification hooks (feature `verif-hooks`): public pass-throughs and a read-only snapshot.
+#[cfg(feature = "verif-hooks")]
+#[allow(missing_docs)]
+#[derive(Clone, Debug)]
+pub struct VerifStoreSnapshot {
+    pub records: Vec<(Key, NetworkAddress, RecordType)>,
+    pub records_by_distance: Vec<(U256, Key)>,
+    pub farthest_record: Option<(Key, U256)>,
+    pub cache_keys: Vec<Key>,
+    pub max_records: usize,
+    pub received_payment_count: usize,
+    pub timestamp: SystemTime,
+    pub responsible_distance_range: Option<U256>,
+}
+
+#[cfg(feature = "verif-hooks")]
+#[allow(missing_docs)]
+impl NodeRecordStore {
+    pub fn verif_put_verified(&mut self, r: Record, record_type: RecordType) -> Result<()> {
+        self.put_verified(r, record_type)
+    }
+    pub fn verif_mark_as_stored(&mut self, key: Key, record_type: RecordType) {
+        self.mark_as_stored(key, record_type)
+    }
+    pub fn verif_contains(&self, key: &Key) -> bool {
+        self.contains(key)
+    }
+    pub fn verif_record_addresses(&self) -> HashMap<NetworkAddress, RecordType> {
+        self.record_addresses()
+    }
+    pub fn verif_quoting_metrics(
+        &self,
+        key: &Key,
+        network_size: Option<u64>,
+    ) -> (QuotingMetrics, bool) {
+        self.quoting_metrics(key, network_size)
+    }
+    pub fn verif_payment_received(&mut self) {
+        self.payment_received()
+    }
+    pub fn verif_set_responsible_distance_range(&mut self, responsible_distance: U256) {
+        self.set_responsible_distance_range(responsible_distance)
+    }
+    /// Shrink the limits that `build_node` hard-codes, so small stores can be exercised.
+    pub fn verif_set_limits(&mut self, max_records: usize, records_cache_size: usize) {
+        self.config.max_records = max_records;
+        self.config.records_cache_size = records_cache_size;
+        self.records_cache.cache_size = records_cache_size;
+    }
+    pub fn verif_storage_dir(&self) -> PathBuf {
+        self.config.storage_dir.clone()
+    }
+    pub fn verif_snapshot(&self) -> VerifStoreSnapshot {
+        VerifStoreSnapshot {
+            records: self
+                .records
+                .iter()
+                .map(|(k, (a, t))| (k.clone(), a.clone(), t.clone()))
+                .collect(),
+            records_by_distance: self
+                .records_by_distance
+                .iter()
+                .map(|(d, k)| (*d, k.clone()))
+                .collect(),
+            farthest_record: self
+                .farthest_record
+                .as_ref()
+                .map(|(k, d)| (k.clone(), convert_distance_to_u256(d))),
+            cache_keys: self.records_cache.records_cache.keys().cloned().collect(),
+            max_records: self.config.max_records,
+            received_payment_count: self.received_payment_count,
+            timestamp: self.timestamp,
+            responsible_distance_range: self.responsible_distance_range,
+        }
     }
 }
 
@@ -900,7 +987,14 @@ impl RecordStore for NodeRecordStore {
         let filename = Self::generate_filename(k);
         let file_path = self.config.storage_dir.join(&filename);
 
+        #[cfg(feature = "verif-hooks")]
+        crate::verif::announce(crate::verif::GateKind::DiskDelete, k.as_ref());
+        #[cfg(feature = "verif-hooks")]
+        let verif_key = k.to_vec();
         let _handle = spawn(async move {
+            #[cfg(feature = "verif-hooks")]
+            let _verif_guard =
+                crate::verif::gate(crate::verif::GateKind::DiskDelete, verif_key).await;
             match fs::remove_file(file_path) {
                 Ok(_) => {
                     info!("Removed record from disk! filename: {filename}");
